@@ -53,16 +53,29 @@ NCharsUpTo(l) == IF l = 0 THEN 0 ELSE Pow(NC, l) + NCharsUpTo(l - 1)
 CharStride == IF Tier = "thorough" THEN 40 ELSE 8
 CharIdx == {i \in 1..NCharsUpTo(MaxChars) : i <= NCharsUpTo(MaxChars - 1) \/ (i + Seed) % CharStride = 0}
 
+\* part "quoted" (len = 7): the inside of a string literal - characters between two quotes, where the tokenizer
+\* tracks escapes and the parser later unquotes, trims or measures the literal
+QAlpha == << "a", "\"", "\\", " ", "\n", "x", "1", "-", "@BYTE255" >>
+NQ == Len(QAlpha)
+RECURSIVE NthQ(_, _)
+NthQ(l, i) == IF l = 0 THEN <<>> ELSE <<QAlpha[(i % NQ) + 1]>> \o NthQ(l - 1, i \div NQ)
+RECURSIVE QOfIndex(_, _)
+QOfIndex(i, l) == IF i < Pow(NQ, l) THEN NthQ(l, i) ELSE QOfIndex(i - Pow(NQ, l), l + 1)
+NQ4 == Pow(NQ, 1) + Pow(NQ, 2) + Pow(NQ, 3) + Pow(NQ, 4)
+QIdx == {i \in 0..(NQ4 + Pow(NQ, 5)) : i <= NQ4 \/ Tier = "thorough" \/ (i + Seed) % 8 = 0}   \* 0: the empty literal
+
 Init == len = 0 /\ idx = 0
 \* thorough (4 tokens, 6.8 M strings) is sampled: a Seed-dependent residue class of the indices
 Stride == IF MaxTok = 4 THEN 23 ELSE 1
-Next == \/ len = 0 /\ len' \in (1..MaxTok) \cup {8, 9} /\ idx' = 0
+Next == \/ len = 0 /\ len' \in (1..MaxTok) \cup {7, 8, 9} /\ idx' = 0
+        \/ len = 7 /\ idx = 0 /\ idx' \in {i + 1 : i \in QIdx} /\ UNCHANGED len
         \/ len = 8 /\ idx = 0 /\ idx' \in CharIdx /\ UNCHANGED len
         \/ len \in 1..4 /\ idx = 0 /\ idx' \in {i \in 1..Pow(N, len) : len < 4 \/ (i + Seed) % Stride = 0} /\ UNCHANGED len
         \/ len = 9 /\ idx = 0 /\ idx' \in 1..NExprs /\ UNCHANGED len
 IsCase == idx > 0
 Export == IsCase =>
    IF len = 9 THEN PrintT("@@ECASE " \o ToJson([expr |-> ExprOfIndex(idx - 1, 1)]))
+   ELSE IF len = 7 THEN PrintT("@@QCASE " \o ToJson([chars |-> IF idx = 1 THEN <<>> ELSE QOfIndex(idx - 2, 1)]))
    ELSE IF len = 8 THEN PrintT("@@CCASE " \o ToJson([chars |-> CharsOfIndex(idx - 1, 1)]))
    ELSE PrintT("@@TCASE " \o ToJson([toks |-> Nth(len, idx - 1)]))
 =============================================================================
